@@ -52,7 +52,7 @@ class C02(nestedcheck.NestedCheck):
         NStream('exhaustive<=5', enum=enum_small, thorough=(64, 4000), others=1, tiers=('thorough',)),
         NStream('exhaustive=6', enum=enum_six, thorough=(64, 1500), others=1, tiers=('thorough',)),
     )
-    theorems = ()
+    theorems = ('TM.C02_inv_of_check', 'TM.C02_init', 'TM.C02_step_partial', 'TM.C02_step_clean', 'TM.C02_step_counterexample_run', 'TM.C02_step_counterexample', 'TM.C02_history', 'TM.C02_resolve_order', 'TM.C02_exit_children_first', 'TM.C02_enter_parents_first', 'TM.C02_entered_part_closed', 'TM.C02_new_configuration')
     rule = ('a case = (state tree, transition set, script, history); non-trivial iff at least one transition with a '
             'state change executed on HierarchicalMachine; distinct by the hash of the encoded case')
     trusted = (
